@@ -97,6 +97,64 @@ def repetitive_case(task):
     return out
 
 
+def multi_entry_case(task):
+    """the failing patch names the file several times, earlier patches of the same push touched it too: the failure report tries
+    things out on copies (earlier patches taken back, more fuzz) and must leave the outcome alone whatever those trials run into"""
+    prev_line, b_line, a_fails_first, with_prev, threads = task
+    d = wsweep.wdir()
+    root = os.path.join(d, 'ws')
+    L = [b'f%d' % i for i in range(8)]
+
+    def hunk(lines, i, new, wrong=False):
+        lo, hi = max(0, i - 1), min(len(lines), i + 2)
+        body = b''
+        for j in range(lo, hi):
+            body += (b'-' + (b'WRONG' if wrong else lines[j]) + b'\n+' + new + b'\n') if j == i else (b' ' + lines[j] + b'\n')
+        return b'@@ -%d,%d +%d,%d @@\n' % (lo + 1, hi - lo, lo + 1, hi - lo) + body
+    cur = list(L)
+    patches, series = {}, []
+    if with_prev:
+        patches['p0.patch'] = b'--- a/f\n+++ b/f\n' + hunk(cur, prev_line, b'P')
+        cur[prev_line] = b'P'
+        series.append('p0.patch')
+    # entry A: one hunk that goes in (line 1) and one that does not (line 6); entry B: changes one line; B comes behind A (and is
+    # written against what A leaves) or in front of it (and A against what B leaves)
+    if not a_fails_first:
+        first = b'--- a/f\n+++ b/f\n' + hunk(cur, 1, b'A1') + hunk(cur, 6, b'Q', wrong=True)
+        mid = list(cur)
+        mid[1] = b'A1'
+        second = b'--- a/f\n+++ b/f\n' + hunk(mid, b_line, b'B')
+    else:
+        first = b'--- a/f\n+++ b/f\n' + hunk(cur, b_line, b'B')
+        mid = list(cur)
+        mid[b_line] = b'B'
+        second = b'--- a/f\n+++ b/f\n' + hunk(mid, 1, b'A1') + hunk(mid, 6, b'Q', wrong=True)
+    patches['p1.patch'] = first + second
+    series.append('p1.patch')
+    patches['p2.patch'] = b'--- a/g\n+++ b/g\n@@ -1 +1 @@\n-g\n+G\n'
+    series.append('p2.patch')
+    files = {'f': (b''.join(l + b'\n' for l in L), 0o644), 'g': (b'g\n', 0o644)}
+    out = {'evals': 0, 'violations': [], 'outcomes': {}, 'nontrivial': 0}
+    for quiet, louder in ((['-q'], ([], ['-v'])), (['-q', '--fuzz', '2'], (['--fuzz', '2'],))):
+        ws.make_ws(root, files, patches, series)
+        oq = ws.run_rq(root, ['-a'] + quiet, threads=threads, trace=os.path.join(d, 'trace'))
+        ref = state(oq, ws.snapshot(root))
+        out['evals'] += 1
+        for opts in louder:
+            ws.make_ws(root, files, patches, series)
+            o = ws.run_rq(root, ['-a'] + opts, threads=threads, trace=os.path.join(d, 'trace'))
+            st = state(o, ws.snapshot(root))
+            out['evals'] += 1
+            out['nontrivial'] += 1
+            out['outcomes']['exit-' + o.cls] = out['outcomes'].get('exit-' + o.cls, 0) + 1
+            if st != ref:
+                mode = st[0] if st[0] not in ('0', '1') else 'differs-from-quiet-run'
+                out['violations'].append((wsweep.cls({'failing-patch-names-the-file-twice', 'earlier-patch-touched-it' if with_prev else 'no-earlier-patch', 'not-quiet', 'threads>1' if threads > 1 else 'threads=1'}), mode,
+                                          {'kind': 'cli', 'files': {k: [common.b2s(v[0]), v[1]] for k, v in files.items()}, 'patches': {k: common.b2s(v) for k, v in patches.items()}, 'series': series, 'args': ['-a'] + opts, 'threads': threads,
+                                           'expected': 'outcome of the same push with %s (exit %s)' % (' '.join(quiet), ref[0]), 'observed': 'exit %s' % st[0], 'stderr': common.b2s(o.err[-300:])}))
+    return out
+
+
 def many_files_case(task):
     """more files than a process may have mappings (vm.max_map_count, 65530 by default; every file and every patch takes one with --mmap)"""
     import hashlib
@@ -181,6 +239,14 @@ def run(tier, seed):
             r['sample'] = {'file_lines': ''.join(rep_tasks[i][0]), 'changed_line': rep_tasks[i][1], 'context': rep_tasks[i][2], 'outcomes': r['outcomes']}
         acc2.add(r)
     acc2.finish('repetitive_files_with_analyses')
+    accm = wsweep.Acc(res)
+    mtasks = [(pl, bl, afirst, wp, t) for pl in (0, 1, 3, 6) for bl in (0, 1, 2, 4, 6) for afirst in (False, True) for wp in (True, False) for t in (1, 2) if wp or pl == 0]
+    for r in wsweep.pmap(multi_entry_case, mtasks):
+        accm.add(r)
+    accm.finish('failing_patch_with_several_entries_for_one_file')
+    res.coverage['failing_patch_with_several_entries_for_one_file']['rule'] = ('an 8-line file; optionally an earlier patch of the same push changing line 0/1/3/6; the failing patch has an entry with one hunk that goes in '
+                                                                               '(line 1) and one that does not, and a second entry for the same file changing line 0/1/2/4/6 of what the first leaves (in either order of the two entries); '
+                                                                               'a patch behind it; x threads {1,2}: default verbosity, -v and --fuzz 2 must give what the quiet run gives (exit, tree, .pc, rejects)')
     acc3 = wsweep.Acc(res)
     for r in wsweep.pmap(many_files_case, [(34000, 1), (34000, 2)] if tier == 'quick' else [(34000, 1), (34000, 2), (70000, 1), (70000, 3)]):
         acc3.add(r)
